@@ -294,3 +294,12 @@ TEXT["C03"]["level"] += ("  (f) (C03c) ALL-ENTRY-STATE THEOREMS for all eight AA
                          "the back ends are proved, not only sampled, to compute the same function.")
 TEXT["C03"]["note"] = ("ARM: instruction semantics transcribed from the Arm ARM and NOT validated against hardware (none available); the Thumb-1 parse is not cross-checked by an assembler (llvm-mc rejects the divided syntax); the ARMv6-M multiply / square / Montgomery routines (21k straight-line instructions) have the model and the judge tie but no theorem.  "
                        "x86: the machine model's instruction semantics are validated against the host CPU on every run through the judge, asm2lean is cross-checked against GNU as/objdump.  Side conditions of the assembly theorems are the C++ contract's (operands < p, res disjoint from p on x86, multiply/square output disjoint from the inputs on x86, 2p <= 2^384, objects off the stack save area).")
+TEXT["C17"]["level"] += ("  Go layer (lang/go, translated on every run by go2lean - no Go toolchain exists here): for each of 112 functions and EVERY environment (any slice lengths, any results of the C calls, any member values, any positive sizeof) in which the call is valid, "
+                         "every malloc/realloc/make size is non-negative, every store/memset/memcpy through a pointer derived from such a block stays inside it, every Go slice index is in range, no panic is reached (GoB.go_memory_safe), every buffer handed to a C function is at least as long as that function reads or writes (GoB.go_buffers_sufficient), "
+                         "and the slot arrays allocated by Params.Unmarshal / SecretKey.Unmarshal / Setup / the four key generators have exactly the number of elements the C side was promised or reported (…_slots theorems); BigIntToC/BigIntFromC are inverse and total below 256^size.  "
+                         "This found F12 (PairingSum heap overflow, repaired).")
+TEXT["C17"]["note"] += ("  Go layer: the translator's reading of Go is trusted (it cannot be compared with an execution), as are the hand-written contracts Pre / bufNeeds; malloc failure, size_t overflow, the Go runtime are not modelled.  When a generated Go theorem breaks, the regenerated model is evaluated on small valid environments to exhibit a concrete out-of-bounds event.")
+TEXT["C17"]["technique"] = "Lean 4 proof (length arithmetic for all n, layout table; generated memory-event models of the Go bindings, slot arithmetic by omega/nlinarith) + sanitizer runs"
+TEXT["C19"]["level"] += ("  Go layer (translated on every run): each of the 123 C calls made by the Go bindings passes arguments of exactly the parameter types of the C prototype, in number and order (cgo's check, which cannot be run here; GoView.go_calls_well_typed), "
+                         "the package variables G1Zero … GTGenerator view exported C objects of exactly the type of the Go struct's Data member, and the parsed text of every Go function is the one the model was read against (go_sources_pinned).")
+TEXT["C19"]["note"] = TEXT["C19"]["note"].replace("Go bindings are read, not executed (no Go toolchain).", "Go bindings are translated, not executed (no Go toolchain): a change that keeps types and memory behaviour (two arguments of equal type swapped) is caught only by the source pin and reported with no-failing-input-found.")
